@@ -72,8 +72,8 @@ namespace Givaro {
     inline typename MOD::Element&
     MOD::init (Element& x, const Integer& y) const
     {
-        x = Caster<Element>(y % _p);
-        if (x < 0) x = Caster<Element>(x + _p);
+        Integer r;
+        x = Caster<Element>(Integer::mod(r, y, uint64_t(_p)));
         return x;
     }
 
